@@ -90,6 +90,12 @@ func FlushFromOverrideDefaultNI(c *fluent.GRIBIClient, wantACK fluent.Programmin
 // default NI using the Get RPC.
 func FlushFromNonMasterDefaultNI(c *fluent.GRIBIClient, wantACK fluent.ProgrammingResult, t testing.TB, _ ...TestOpt) {
 	defer flushServer(c, t)
+	// The Flush below is sent with an election ID that is lower than the one used to
+	// program the entries. It must not be zero (which is an invalid election ID rather
+	// than a non-primary one), so the entries are programmed with an ID of at least 2.
+	if electionID.Load() < 2 {
+		electionID.Store(2)
+	}
 	addFlushEntriesToNI(c, defaultNetworkInstanceName, wantACK, t)
 
 	// addFlushEntriesToNI increments the election ID so to check with the current value,
